@@ -75,7 +75,8 @@ def sqrtOp (c : Ctx) (x : Dec) : Out :=
     let workp := if workp < nd then nd else workp
     let workp := if workp < 7 then 7 else workp
     let e0 : Int := (nd : Int) + x.exp
-    let nc : Ctx := { c with prec := workp, mode := .halfEven }
+    -- internal steps run under the package's exponent limits; the caller's range is applied by the final rounding
+    let nc : Ctx := { c with prec := workp, mode := .halfEven, emin := MinExponent, emax := MaxExponent }
     let ed : ED := { c := nc }
     let even := (Int.tmod e0 2 == 0)
     let f : Dec := { x with exp := if even then -(nd : Int) else -(nd : Int) - 1 }
@@ -239,5 +240,47 @@ def powSpecials (c : Ctx) (x y : Dec) : Option Out :=
       else some { d := decZero }
   else if xs < 0 && !yIsInt then some (invalidNaN c)
   else none
+
+/-! ## Pow with an integer exponent: `integerPower` (square and multiply) — no floating point involved -/
+
+/-- the square-and-multiply loop of `Context.integerPower`; returns `(ed, z, n)`; stops at the first error -/
+def intPowLoop : Nat → ED → Nat → Dec → Dec → ED × Dec
+  | 0, e, _, z, _ => (e, z)
+  | fuel+1, e, b, z, n =>
+    if b == 0 then (e, z) else
+    let r1 := if b % 2 == 1 then e.step z (fun c => mulOp c z n) else (e, z)
+    let b' := b / 2
+    let r2 := if b' > 0 then r1.1.step n (fun c => mulOp c n n) else (r1.1, n)
+    if r2.1.failed then (r2.1, r1.2) else intPowLoop fuel r2.1 b' r1.2 r2.2
+
+/-- `Context.integerPower(d, x, y)` for an integer `y`: result, flags, error class -/
+def integerPower (c : Ctx) (x : Dec) (y : Int) : Dec × Cond × ErrKind :=
+  let b := y.natAbs
+  let neg := decide (y < 0)
+  let r := intPowLoop (Nat.log2 b + 2) { c := c } b decOne x
+  if r.1.failed then
+    ((r.2), (if neg then r.1.fl.negateOverflowFlags else r.1.fl), r.1.errOf)
+  else
+    let q := if neg then r.1.step r.2 (fun c => quoOp c decOne r.2) else r
+    (q.2, q.1.fl, q.1.errOf)
+
+/-- `Context.Pow` when `y` is a finite integer and no special case applies; `none` otherwise -/
+def powIntOp (c : Ctx) (x y : Dec) : Option Out :=
+  match powSpecials c x y with
+  | some o => some o
+  | none =>
+    let m := modf y
+    if !m.2.isZero then none else            -- fractional exponent: Ln/Exp, not modelled
+    let nd := ndigits x.coeff
+    let p := (if c.prec < nd then nd else c.prec) + 10
+    let nc : Ctx := { baseCtx with prec := p }
+    let qi := quantizeCore c m.1 0
+    let integ : Int := if qi.1.neg then -(qi.1.coeff : Int) else (qi.1.coeff : Int)
+    let ip := integerPower nc x integ
+    let res := qi.2 ||| ip.2.1
+    if ip.2.2 != .none then some { d := decNaN, fl := res, err := ip.2.2 }
+    else
+      let r := ctxRound c ip.1
+      some (finish c (r.1, res ||| r.2))
 
 end Apd
